@@ -40,6 +40,16 @@ CHECKS = {
             "Trees are capped at 60000 nodes: rich middlegames are covered at depth 1-2 or skipped (counted in the evidence).", "reference-value re-derivation in TLA+ (Search!Ref) on recorded trees + TLC model check AB = Ref", "5 C12"),
     "C18": (MC, "Every info line of reference runs to depth 4 and of every enumerated expiry point is tokenised strictly and judged by TraceSearch.tla (shape, depth, mate value, bounds, strict increase inside a depth, first pv move legal); MC_Search invariant ScoresOk over trees x expiry indices; info lines of timed runs of the real binary are judged by TraceUci.tla.",
             "PV moves are (from,to) pairs in the engine, so promotion letters are absent from the pv: legality is judged on from/to.", "TLC trace validation of info lines + TLC model check (ScoresOk)", "5 C18"),
+    "C03": (MC, "Walleye.tla (I/O thread, polling loop, search thread boundary, channel, deadline countdown) is model-checked over all interleavings for every command sequence up to the bound: exactly one answer per go, the board held by the polling loop is a root move of the position the go was given in (AnswerFitsPosition, ChannelFresh), liveness go ~> bestmove; the variant with one channel per session fails. Recorded sessions of the real binary (every command sequence of the model's alphabet up to length 3, runs of consecutive go, tiny slices) are validated by TraceUci.tla, which tracks the position with Chess!Apply and requires exactly one well-formed legal bestmove per go.",
+            "Real thread schedules are sampled (tiny slices, concurrency), exhaustive only in the model.", "TLC model check of Walleye.tla (all interleavings) + TLC trace validation of black-box UCI sessions against Chess.tla", "5 C03"),
+    "C08": (MC, "Liveness go ~> bestmove and termination model-checked in Walleye.tla with fairness (variants: no answer when no moves, fallback only before the loop, stale game-over flag - all fail); sessions of the real binary on finished and live positions x clocks: TraceUci.tla requires the (null) move within slice + 250 ms, readyok afterwards, and a further position/go served; two go in a row after mate-in-one positions.",
+            "The upper time bound is machine dependent: a late answer is reported only if reproduced 3/3 in isolation.", "TLC liveness check of Walleye.tla + TLC trace validation of timed black-box sessions", "5 C08"),
+    "C09": (MC, "TimeControl.tla states the slice contract in integers (only the mover's clock and increment, never above the remaining clock, <= round(0.8*(clock-100)/mtg), zero without usable clock and increment); TLC re-parses the go tokens (ParseGo) and checks the contract and the independence from the other side's values on an edge grid + random go lines run through the engine's parse_go_command / calculate_time_slice; the real binary's go->bestmove delay is validated against [plan, plan+250 ms] by TraceUci.tla; Walleye.tla: bestmove never before the deadline.",
+            "Values beyond 2*10^8 ms are outside TLC's 32-bit integers (not covered).", "TLA+ integer contract (TimeControl!SliceOK) checked by TLC on recorded slice events + trace validation of timed sessions", "5 C09"),
+    "C16": (MC, "Each probe request runs in a fresh process, twice in a row, and after prefixes (other games with searches, the same game move by move, ucinewgame/setoption/ignored lines/finished games, long repetition histories); TraceUci.tla keeps memo[request] and requires the identical bestmove under a zero allowance and prefix-related (depth, nodes, score, first pv move) sequences under a timed one. Walleye.tla: Position makes board and record functions of the command (RecordFresh).",
+            "Sessions are sampled; timed probes compare only the common prefix (machine speed independent).", "TLC trace validation of black-box sessions with a memo of replies per request + structural model invariant", "5 C16"),
+    "C17": (MC, "Walleye.tla: ignored lines stutter, Quit/Eof ~> dead (the variant reading end of input as empty lines fails); sessions of the real binary with a garbage alphabet interleaved with commands: every isready answered, the probe after garbage equals the garbage-free reply (memo), unknown tokens inside go, quit ends the process within 1 s, closing standard input after EVERY prefix of sessions containing blank lines ends it within 2 s.",
+            "Garbage is a finite alphabet (sampled); truncated known commands such as a bare `position` are outside the property.", "TLC liveness check of Walleye.tla + TLC trace validation of black-box sessions incl. end of input at every prefix", "5 C17"),
 }
 claimed = sorted(CHECKS)
 m = {
